@@ -744,7 +744,8 @@ impl Number {
         let whole = value.trunc() as u32;
         let decimal = value.fract();
 
-        if whole > max_whole || whole == u32::MAX {
+        // the cast above saturates: reject what does not fit in a u32, not u32::MAX itself
+        if whole > max_whole || value > u32::MAX as f64 {
             return None;
         }
 
